@@ -54,7 +54,24 @@ META = {
 }
 
 _NS = "PydraModel.Hash."
-OBLIGATIONS: list[str] = []
+OBLIGATIONS = [
+    _NS + n
+    for n in (
+        "C08_sorted_perm",
+        "C08_order_indep",
+        "C08_discriminates",
+        "C08_keys_self_delimiting",
+        "C08_context_free",
+        "C08_context_free_seq",
+        "C08_hashFunction_pure",
+        "C08_witness_partial_order",
+        "C08_witness_cycle",
+        "heads_prefix_free",
+        "len_seps_ok",
+        "words_ok",
+        "Sources.sources_ok",
+    )
+]
 LEAN_TARGETS = ["PydraModel.Props.C08", "Drivers.Hash"]
 MODEL_TARGETS = ["PydraModel.Hash.DriverImpl", "Drivers.Hash"]
 EXTRACTORS = [hash_lits]
@@ -307,17 +324,28 @@ def correspondence(ctx):
         if r.get("finding"):
             status.setdefault(r["finding"], []).append((seq[-1] != alone, f"{r['name']}: in context {seq[-1]}, alone {alone}"))
     w = in_process_d6_witness()
+    d6_pair = None
     if w is not None:
         h1, h2 = H.impl_hash(w[0]), H.impl_hash(w[1])
         status.setdefault("D6", []).append((h1 != h2, f"frozenset([{set(list(w[0])[0])},{set(list(w[0])[1])}]) built in both orders: {h1} / {h2}"))
         ctx.extra["d6_in_process_witness"] = {"order1": [sorted(x) for x in w[0]], "order2": [sorted(x) for x in w[1]], "hashes": [h1, h2]}
+
+        def fs(s):
+            return {"k": "frozenset", "xs": [{"k": "int", "v": str(i)} for i in sorted(s)]}
+
+        d6_pair = {
+            "a": {"k": "frozenset", "xs": [fs(x) for x in w[0]]},
+            "b": {"k": "frozenset", "xs": [fs(x) for x in w[1]]},
+            "same": True,
+            "aspect": "same:set-build-order",
+        }
     for fid in sorted(known):
         st = status.get(fid, [])
         ctx.finding(fid, any(f for f, _ in st), "; ".join(d for _, d in st)[:600])
     for fid in status:
         if fid not in known and any(f for f, _ in status[fid]):
             ctx.notes.append(f"corpus witness of {fid} fails but {fid} is not listed for C08")
-    run_pairs(ctx, [{k: r[k] for k in ("a", "b", "same", "aspect")} for r in pairs], moddir)
+    run_pairs(ctx, [{k: r[k] for k in ("a", "b", "same", "aspect")} for r in pairs] + ([d6_pair] if d6_pair else []), moddir)
     run_ctx(ctx, [{k: r[k] for k in ("ctx", "v")} for r in ctxs], moddir)
     # generated --------------------------------------------------------------------------------------------------
     n_pairs, n_ctx = ctx.pick(150, 2500), ctx.pick(40, 600)
